@@ -400,52 +400,46 @@ theorem aroundPayload_of_norm (S : Schema) (hS : S ∈ familySchemas) (doc : Nod
   PM.C11.aroundPayload_of_norm S doc f t req hv st h hwf hp hsn
 
 /-- `PM.C11.insertInline_valid_of_norm` with its schema guards discharged for the bundled schema family -/
-theorem insertInline_valid_of_norm (S : Schema) (hS : S ∈ domFamilySchemas) (doc doc' : Node) (f t : Nat)
+theorem insertInline_valid_of_norm (S : Schema) (hS : S ∈ familySchemas) (doc doc' : Node) (f t : Nat)
     (sl : Slice) (hsl : sl.inlineLeaves S = true) (hslv : sl.closedValid S = true) (hv : C01.Valid S doc)
     (hattrs : S.nodeAttrsOK doc = true) (hft : f ≤ t) (st : Step) (h : replaceStep S doc f t sl = .ok (some st))
     (hsn : ∀ F T G1 G2 sl' ins b, st = .replaceAround F T G1 G2 sl' ins b → fnorm sl'.content = true)
     (ha : S.apply st doc = .ok doc') :
     C01.Valid S doc' ∧ Kept (ftoks doc.kids) (ftoks doc'.kids) f t (textUnits (sliceToks' sl)) :=
-  PM.C11.insertInline_valid_of_norm S (family_det _ (domFamily_sub _ hS))
-    (family_fillersOK _ (domFamily_sub _ hS)) (family_wrapOK _ (domFamily_sub _ hS))
-    (family_labelsOK _ (domFamily_sub _ hS)) (family_leafOk _ (domFamily_sub _ hS))
-    (family_textStableC _ (domFamily_sub _ hS)) (family_closable _ (domFamily_sub _ hS)) doc doc' f t sl hsl
-    hslv hv hattrs hft st h hsn ha
+  PM.C11.insertInline_valid_of_norm S (family_det _ hS) (family_fillersOK _ hS) (family_wrapOK _ hS)
+    (family_labelsOK _ hS) (family_leafOk _ hS) (family_textStableC _ hS) (family_closable _ hS) doc doc' f t sl
+    hsl hslv hv hattrs hft st h hsn ha
 
 /-- `PM.C11.replace_valid_of_inv_of_norm` with its schema guards discharged for the bundled schema family -/
-theorem replace_valid_of_inv_of_norm (S : Schema) (hS : S ∈ domFamilySchemas) (doc doc' : Node) (f t : Nat)
+theorem replace_valid_of_inv_of_norm (S : Schema) (hS : S ∈ familySchemas) (doc doc' : Node) (f t : Nat)
     (sl : Slice) (hwf : sl.wf = true) (hslv : openValid S sl.openStart sl.openEnd sl.content = true)
     (hv : C01.Valid S doc) (hattrs : S.nodeAttrsOK doc = true) (hft : f ≤ t) (st : Step)
     (h : replaceStep S doc f t sl = .ok (some st)) (hend : fitEndInv S doc f t sl ≠ some false)
     (hsn : ∀ F T G1 G2 sl' ins b, st = .replaceAround F T G1 G2 sl' ins b → fnorm sl'.content = true)
     (ha : S.apply st doc = .ok doc') :
     C01.Valid S doc' ∧ Kept (ftoks doc.kids) (ftoks doc'.kids) f t (textUnits (sliceToks' sl)) :=
-  PM.C11.replace_valid_of_inv_of_norm S (family_det _ (domFamily_sub _ hS))
-    (family_fillersOK _ (domFamily_sub _ hS)) (family_leafOk _ (domFamily_sub _ hS))
-    (family_textStableC _ (domFamily_sub _ hS)) (family_closable _ (domFamily_sub _ hS)) doc doc' f t sl hwf
-    hslv hv hattrs hft st h hend hsn ha
+  PM.C11.replace_valid_of_inv_of_norm S (family_det _ hS) (family_fillersOK _ hS) (family_leafOk _ hS)
+    (family_textStableC _ hS) (family_closable _ hS) doc doc' f t sl hwf hslv hv hattrs hft st h hend hsn ha
 
 /-- `PM.C11.insertInline_valid` with its schema guards discharged for the bundled schema family -/
-theorem insertInline_valid (S : Schema) (hS : S ∈ domFamilySchemas) (doc doc' : Node) (f t : Nat) (sl : Slice)
+theorem insertInline_valid (S : Schema) (hS : S ∈ familySchemas) (doc doc' : Node) (f t : Nat) (sl : Slice)
     (hsl : sl.inlineLeaves S = true) (hslv : sl.closedValid S = true) (hsn : fnorm sl.content = true)
     (hv : C01.Valid S doc) (hattrs : S.nodeAttrsOK doc = true) (hft : f ≤ t) (st : Step)
     (h : replaceStep S doc f t sl = .ok (some st)) (ha : S.apply st doc = .ok doc') :
     C01.Valid S doc' ∧ Kept (ftoks doc.kids) (ftoks doc'.kids) f t (textUnits (sliceToks' sl)) :=
-  PM.C11.insertInline_valid S (family_det _ (domFamily_sub _ hS)) (family_fillersOK _ (domFamily_sub _ hS))
-    (family_wrapOK _ (domFamily_sub _ hS)) (family_labelsOK _ (domFamily_sub _ hS))
-    (family_leafOk _ (domFamily_sub _ hS)) (family_textStableC _ (domFamily_sub _ hS))
-    (family_closable _ (domFamily_sub _ hS)) doc doc' f t sl hsl hslv hsn hv hattrs hft st h ha
+  PM.C11.insertInline_valid S (family_det _ hS) (family_fillersOK _ hS) (family_wrapOK _ hS)
+    (family_labelsOK _ hS) (family_leafOk _ hS) (family_textStableC _ hS) (family_closable _ hS) doc doc' f t sl
+    hsl hslv hsn hv hattrs hft st h ha
 
 /-- `PM.C11.replace_valid_of_inv` with its schema guards discharged for the bundled schema family -/
-theorem replace_valid_of_inv (S : Schema) (hS : S ∈ domFamilySchemas) (doc doc' : Node) (f t : Nat) (sl : Slice)
+theorem replace_valid_of_inv (S : Schema) (hS : S ∈ familySchemas) (doc doc' : Node) (f t : Nat) (sl : Slice)
     (hwf : sl.wf = true) (hslv : openValid S sl.openStart sl.openEnd sl.content = true)
     (hsn : fnorm sl.content = true) (hv : C01.Valid S doc) (hattrs : S.nodeAttrsOK doc = true) (hft : f ≤ t)
     (st : Step) (h : replaceStep S doc f t sl = .ok (some st)) (hend : fitEndInv S doc f t sl ≠ some false)
     (ha : S.apply st doc = .ok doc') :
     C01.Valid S doc' ∧ Kept (ftoks doc.kids) (ftoks doc'.kids) f t (textUnits (sliceToks' sl)) :=
-  PM.C11.replace_valid_of_inv S (family_det _ (domFamily_sub _ hS)) (family_fillersOK _ (domFamily_sub _ hS))
-    (family_leafOk _ (domFamily_sub _ hS)) (family_textStableC _ (domFamily_sub _ hS))
-    (family_closable _ (domFamily_sub _ hS)) doc doc' f t sl hwf hslv hsn hv hattrs hft st h hend ha
+  PM.C11.replace_valid_of_inv S (family_det _ hS) (family_fillersOK _ hS) (family_leafOk _ hS)
+    (family_textStableC _ hS) (family_closable _ hS) doc doc' f t sl hwf hslv hsn hv hattrs hft st h hend ha
 
 /-- `PM.C11.fit_emits_valid_payload` with its schema guards discharged for the bundled schema family -/
 theorem fit_emits_valid_payload (S : Schema) (hS : S ∈ familySchemas) (doc : Node) (f t : Nat) (sl : Slice)
@@ -707,8 +701,8 @@ theorem replace_applies_direct (S : Schema) (hS : S ∈ familySchemas) (doc : No
     hsn hshc st h
 
 /-- `PM.C11.insertInline_never_raises_direct_partial` with its schema guards discharged for the bundled schema family -/
-theorem insertInline_never_raises_direct_partial (S : Schema) (hS : S ∈ domFamilySchemas) (doc : Node)
-    (f t : Nat) (sl : Slice) (hsl : sl.inlineLeaves S = true) (hslv : sl.closedValid S = true)
+theorem insertInline_never_raises_direct_partial (S : Schema) (hS : S ∈ familySchemas) (doc : Node) (f t : Nat)
+    (sl : Slice) (hsl : sl.inlineLeaves S = true) (hslv : sl.closedValid S = true)
     (hsn : fnorm sl.content = true) (hshc : highClosedKids sl.content = true) (hv : C01.Valid S doc)
     (hdoc : C01.IsElem doc) (hn : fnorm doc.kids = true) (hattrs : S.nodeAttrsOK doc = true)
     (hhc : highClosedKids doc.kids = true) (htop : S.isTextblockO (S.tyOf doc) = false) (hft : f ≤ t)
@@ -717,13 +711,9 @@ theorem insertInline_never_raises_direct_partial (S : Schema) (hS : S ∈ domFam
     replaceStep S doc f t sl = .ok none ∨
     ∃ st doc', replaceStep S doc f t sl = .ok (some st) ∧ S.apply st doc = .ok doc' ∧ C01.Valid S doc' ∧
     Kept (ftoks doc.kids) (ftoks doc'.kids) f t (textUnits (sliceToks' sl)) :=
-  PM.C11.insertInline_never_raises_direct_partial S (family_det _ (domFamily_sub _ hS))
-    (family_fillersOK _ (domFamily_sub _ hS)) (family_wrapOK _ (domFamily_sub _ hS))
-    (family_labelsOK _ (domFamily_sub _ hS)) (family_leafOk _ (domFamily_sub _ hS))
-    (family_textStableC _ (domFamily_sub _ hS)) (family_closable _ (domFamily_sub _ hS))
-    (family_textStable _ hS) (family_textAbsorb _ (domFamily_sub _ hS))
-    (family_joinCompat _ (domFamily_sub _ hS)) (family_reopenOK _ (domFamily_sub _ hS))
-    (family_inlineUniform _ (domFamily_sub _ hS)) doc f t sl hsl hslv hsn hshc hv hdoc hn hattrs hhc htop hft ht
-    hpf hpt hdir
+  PM.C11.insertInline_never_raises_direct_partial S (family_det _ hS) (family_fillersOK _ hS)
+    (family_wrapOK _ hS) (family_labelsOK _ hS) (family_leafOk _ hS) (family_textStableC _ hS)
+    (family_closable _ hS) (family_textAbsorb _ hS) (family_joinCompat _ hS) (family_reopenOK _ hS)
+    (family_inlineUniform _ hS) doc f t sl hsl hslv hsn hshc hv hdoc hn hattrs hhc htop hft ht hpf hpt hdir
 
 end PM.Family.C11
